@@ -26,9 +26,12 @@ type LeveldbDiskStorage struct {
 
 // Create a new table, destroying any existing table.
 func (f LeveldbDiskStorage) Create(tbl *btapb.Table) Rows {
+	path := filepath.Join(f.Root, tbl.Name)
+	// Destroy rows left behind by an earlier table of this name before the new definition is persisted;
+	// otherwise dying between the two steps brings the old rows back under the new table.
+	_ = os.RemoveAll(path)
 	f.SetTableMeta(tbl)
 	verifPoint("disk.create.afterMeta", []byte(tbl.Name))
-	path := filepath.Join(f.Root, tbl.Name)
 	newFunc := func(nuke bool) *leveldb.DB {
 		return newDiskDb(path, nuke)
 	}
